@@ -116,6 +116,106 @@ theorem radii_on_sphere (r : ℝ) (hr : 0 < r) (a : ℝ) :
     rw [← add_div, hcs]
   rw [this]; field_simp
 
+
+/-! ### the series on a sphere: every coefficient vanishes, what is left is the identity -/
+
+section sphere
+
+theorem lit_two : (@OfScientific.ofScientific ℝ Scalar.instOfScientific 20 true 1) = 2 := by
+  simp [OfScientific.ofScientific, Scalar.ofSci, Lit.toReal]; norm_num
+
+theorem lit_one : (@OfScientific.ofScientific ℝ Scalar.instOfScientific 10 true 1) = 1 := by
+  simp [OfScientific.ofScientific, Scalar.ofSci, Lit.toReal]
+
+theorem nat_zero : (@OfNat.ofNat ℝ 0 Scalar.instOfNat) = 0 := by
+  show (Scalar.ofNatLit 0 : ℝ) = 0; simp
+
+/-- the third flattening of a sphere is zero -/
+theorem third_flattening_sphere (el : Ellipsoid ℝ) (h : el.f = 0) : el.thirdFlattening = 0 := by
+  simp [Ellipsoid.thirdFlattening, h]
+
+/-- `fourier_coefficients` at argument zero: every coefficient is zero (each is `n` times a polynomial in `n`) -/
+theorem fourier_coefficients_zero (fwd inv : List (List (Lit × Lit))) :
+    (∀ c ∈ (Series.fourierCoefficients (0 : ℝ) fwd inv).fwd, c = 0) ∧
+    (∀ c ∈ (Series.fourierCoefficients (0 : ℝ) fwd inv).inv, c = 0) := by
+  constructor <;> intro c hc <;> simp only [Series.fourierCoefficients, List.mem_map] at hc <;>
+    obtain ⟨row, _, rfl⟩ := hc <;> exact zero_mul _
+
+/-- Clenshaw's recurrence over zero coefficients stays at zero -/
+theorem clenshaw_zeros (x : ℝ) (cs : List ℝ) (h : ∀ c ∈ cs, c = 0) : Series.clenshaw x cs = (0, 0) := by
+  unfold Series.clenshaw
+  have hr : ∀ c ∈ cs.reverse, c = 0 := fun c hc => h c (List.mem_reverse.mp hc)
+  generalize cs.reverse = l at hr
+  have key : ∀ (l : List ℝ), (∀ c ∈ l, c = 0) →
+      l.foldl (fun (s : ℝ × ℝ) c => (Scalar.mulAdd x s.1 (c - s.2), s.1)) ((0 : ℝ), (0 : ℝ)) = (0, 0) := by
+    intro l
+    induction l with
+    | nil => intro _; rfl
+    | cons c l ih =>
+      intro hl
+      have hc : c = 0 := hl c (by simp)
+      subst hc
+      simp only [List.foldl_cons, scalar_mulAdd, mul_zero, sub_zero, add_zero]
+      exact ih (fun c hc => hl c (List.mem_cons_of_mem _ hc))
+  simpa [nat_zero] using key l hr
+
+/-- so the sine series vanishes -/
+theorem series_sin_zeros (arg : ℝ) (cs : List ℝ) (h : ∀ c ∈ cs, c = 0) : Series.sin arg cs = 0 := by
+  simp [Series.sin, clenshaw_zeros _ cs h]
+
+/-- **on a sphere the conformal and the authalic latitude are the geographic latitude, in both
+directions**, whatever the tables of `ellipsoid/constants.rs` hold: every coefficient is the third
+flattening times a polynomial in it -/
+theorem sphere_latitudes_identity (el : Ellipsoid ℝ) (h : el.f = 0) (phi : ℝ) :
+    Ellipsoid.latitudeFwdSeries phi el.conformalCoefficients = phi ∧
+    Ellipsoid.latitudeInvSeries phi el.conformalCoefficients = phi ∧
+    Ellipsoid.latitudeFwdSeries phi el.authalicCoefficients = phi ∧
+    Ellipsoid.latitudeInvSeries phi el.authalicCoefficients = phi := by
+  have hn := third_flattening_sphere el h
+  refine ⟨?_, ?_, ?_, ?_⟩ <;>
+    simp only [Ellipsoid.latitudeFwdSeries, Ellipsoid.latitudeInvSeries, Ellipsoid.conformalCoefficients,
+      Ellipsoid.authalicCoefficients, Ellipsoid.latitudeFourierCoefficients, hn] <;>
+    first
+    | rw [series_sin_zeros _ _ (fourier_coefficients_zero _ _).1, add_zero]
+    | rw [series_sin_zeros _ _ (fourier_coefficients_zero _ _).2, add_zero]
+
+/-- Horner's scheme at zero is the constant term -/
+theorem horner_zero (c : ℝ) (cs : List ℝ) : Series.horner 0 (c :: cs) = c := by
+  unfold Series.horner
+  have key : ∀ (l : List ℝ) (v : ℝ), (l ++ [c]).foldl (fun value c => Scalar.mulAdd value 0 c) v = c := by
+    intro l
+    induction l with
+    | nil => intro v; simp
+    | cons d l ih => intro v; simp only [List.cons_append, List.foldl_cons]; exact ih _
+  rw [List.reverse_cons]
+  cases hrev : cs.reverse with
+  | nil => simp
+  | cons d l => simp only [List.cons_append]; exact key l d
+
+/-- **on a sphere the rectifying latitude is the geographic latitude** (the scale factor the code
+applies, the normalised meridian arc unit, is 1 there), in both directions -/
+theorem sphere_rectifying_identity (el : Ellipsoid ℝ) (h : el.f = 0) (phi : ℝ) :
+    el.normalizedMeridianArcUnit = 1 ∧
+    Ellipsoid.latitudeGeographicToRectifying phi el.rectifyingCoefficients = phi ∧
+    Ellipsoid.latitudeRectifyingToGeographic phi el.rectifyingCoefficients = phi := by
+  have hn := third_flattening_sphere el h
+  have hu : el.normalizedMeridianArcUnit = 1 := by
+    simp only [Ellipsoid.normalizedMeridianArcUnit, hn, mul_zero, Ellipsoid.meridianArcCoefficients,
+      Gen.meridianArcCoefficients, List.map_cons, horner_zero]
+    simp [ratio, Lit.toReal, lit_one]
+  refine ⟨hu, ?_, ?_⟩
+  · simp only [Ellipsoid.latitudeGeographicToRectifying, Ellipsoid.rectifyingCoefficients,
+      Ellipsoid.latitudeFourierCoefficients, hn, hu]
+    rw [series_sin_zeros _ _ (fourier_coefficients_zero _ _).1]; ring
+  · simp only [Ellipsoid.latitudeRectifyingToGeographic, Ellipsoid.rectifyingCoefficients,
+      Ellipsoid.latitudeFourierCoefficients, hn, hu]
+    rw [series_sin_zeros _ _ (fourier_coefficients_zero _ _).2]; simp
+
+/-- a sphere: the premise is satisfiable -/
+example : (⟨6371000, 0⟩ : Ellipsoid ℝ).f = 0 := rfl
+
+end sphere
+
 /-! ### axisswap and adapt: the mappings they share -/
 
 /-- **axisswap with a full `order` is adapt's gather with the same positions and signs**:
